@@ -19,7 +19,7 @@ WORK = "/tmp/work/matrix"
 FIX_PROPS = {
     "D01": ["C01", "C03"], "D02": ["C04", "C18"], "D03": ["C07", "C01"], "D04": ["C05"], "D05": ["C08"], "D06": ["C09"],
     "D09": ["C12"], "D10": ["C12"], "D11": ["C14"], "D12": ["C14"], "D13": ["C16"], "D14": ["C18"], "D15": ["C14"],
-    "D16": ["C01", "C04"], "D17": ["C02", "C03"], "D18": ["C02", "C03"], "D19": ["C12", "C05"], "D20": ["C16"], "D21": ["C16"], "D22": ["C14"], "D23": ["C09"], "D24": ["C09"], "D25": ["C18"], "D26": ["C14"], "D27": ["C14"],
+    "D16": ["C01", "C04"], "D17": ["C02", "C03"], "D18": ["C02", "C03"], "D19": ["C12", "C05"], "D20": ["C16"], "D21": ["C16"], "D22": ["C14"], "D23": ["C09"], "D24": ["C09"], "D25": ["C18"], "D26": ["C14"], "D27": ["C14"], "D28": ["C11"],
 }
 # extra checks worth running for a seed besides its own property
 ALSO = {"C19-B": ["C02"], "C14-B": ["C06"], "C18-B": ["C06"], "C05-A": ["C12"], "C12-B": ["C05"], "C03-A": ["C07", "C01"], "C07-B": ["C03"],
